@@ -151,7 +151,7 @@ func VerifC09Value() {
 	var v string
 	stringTyped := typ != "integer" && typ != "number" && typ != "boolean" && typ != "array"
 	if !stringTyped || format != "uuid" {
-		v = verif.String("v", verif.L(6))
+		v = verif.String("v", 6)
 	} else if verif.Bool("len36") {
 		// exactly 36 characters: a well-formed uuid in which one or two positions (a hex
 		// position at a group boundary or in the middle, or a dash position) hold an arbitrary
@@ -160,7 +160,8 @@ func VerifC09Value() {
 		const tmpl = "01234567-89ab-cdEF-0123-456789abcdef"
 		pos := []int{0, 7, 8, 9, 13, 18, 22, 23, 24, 35}[verif.Choice("uuid.pos", 10)]
 		if verif.Thorough() {
-			pos = verif.Choice("uuid.anypos", 36) // every position
+			// every hex position of the first and the last group, and every dash
+			pos = []int{0, 1, 2, 3, 4, 5, 6, 7, 8, 13, 18, 23, 24, 25, 26, 27, 28, 29, 30, 31, 32, 33, 34, 35}[verif.Choice("uuid.pos2", 24)]
 		}
 		v = tmpl[:pos] + verif.StringN("uuid.char", 1, "") + tmpl[pos+1:]
 		if verif.Bool("uuid.second") {
@@ -169,7 +170,7 @@ func VerifC09Value() {
 	} else if verif.Bool("len37") {
 		v = verif.StringN("long", 37, "")
 	} else {
-		v = verif.String("v", verif.L(6))
+		v = verif.String("v", 6)
 	}
 	r := &http.Request{Header: http.Header{}}
 	if has {
